@@ -51,6 +51,7 @@ type fakeCF struct {
 	faultSalt int
 	patches   []string
 	badAuth   bool
+	onPatch   func() // called (once) when a PATCH request arrives, before it is answered
 }
 
 func (f *fakeCF) handle(w http.ResponseWriter, req *http.Request) {
@@ -125,6 +126,10 @@ func (f *fakeCF) handle(w http.ResponseWriter, req *http.Request) {
 		writeJSON(map[string]any{"success": true, "errors": []any{}, "result": res,
 			"result_info": map[string]int{"page": page, "per_page": per, "count": len(res), "total_count": len(z.Recs), "total_pages": (len(z.Recs) + per - 1) / per}})
 	case strings.Contains(path, "/dns_records/") && req.Method == "PATCH":
+		if hook := f.onPatch; hook != nil {
+			f.onPatch = nil
+			hook()
+		}
 		parts := strings.Split(strings.TrimPrefix(path, "/"), "/")
 		rid := parts[len(parts)-1]
 		body, _ := io.ReadAll(req.Body)
@@ -223,6 +228,7 @@ func genC20(env *core.Env, emit func(core.Case)) {
 		publish.VerifSetBaseURL(pubr, *u)
 		ops := []core.Op{{Line: "cf-reset " + fake.stateText(), Kind: 'M', Want: "ok"}}
 		w := ""
+		var lastTargets []publish.Target
 		sigParts := []string{fmt.Sprintf("n%d", nrec)}
 		ncalls := 1 + r.IntN(3)
 		lists := [][]byte{gen.RandBytes(r, 20), gen.RandBytes(r, 33)}
@@ -294,6 +300,7 @@ func genC20(env *core.Env, emit func(core.Case)) {
 			}
 			fake.mu.Unlock()
 			results := pubr.PublishECH(context.Background(), tg, list)
+			lastTargets = tg
 			fake.mu.Lock()
 			patches := slices.Clone(fake.patches)
 			reqs := fake.reqs
@@ -380,6 +387,28 @@ func genC20(env *core.Env, emit func(core.Case)) {
 				w = "request without the bearer token"
 			}
 			sigParts = append(sigParts, shape+"/"+faultClass+"/"+strings.Join(rt, ","))
+		}
+		// a last call whose context ends - before the call, or while its first write is in flight: the
+		// caller still gets one result per requested record, in request order
+		if len(lastTargets) > 0 {
+			for _, when := range []string{"before", "during-first-patch"} {
+				ctx, cancel := context.WithCancel(context.Background())
+				if when == "before" {
+					cancel()
+				} else {
+					fake.mu.Lock()
+					fake.onPatch = cancel
+					fake.mu.Unlock()
+				}
+				res := pubr.PublishECH(ctx, lastTargets, gen.RandBytes(r, 24))
+				cancel()
+				fake.mu.Lock()
+				fake.onPatch = nil
+				fake.mu.Unlock()
+				if w == "" && len(res) != len(lastTargets) {
+					w = fmt.Sprintf("context ended %s: %d results for %d requested records", when, len(res), len(lastTargets))
+				}
+			}
 		}
 		ops = append(ops, core.Op{Kind: 'X', Note: "one result per record in order; exactly the ech parameter of exactly the requested existing records is rewritten; no write when current; several pages", Want: w})
 		sig := strings.Join(sigParts, "|")
